@@ -2125,6 +2125,29 @@ func (g *Graph) nilAtUse(id *ast.Ident) (isNil, known bool) {
 					out = &[2]bool{false, true}
 				} else if g.Dominated(st, g.GExprNil(true, same)) {
 					out = &[2]bool{true, true}
+				} else if _, isPtr := tv.Type.Underlying().(*types.Pointer); isPtr && g.Dominated(st, GFunc(func(ft Fact) bool {
+					// handed, in a test that decided the way here, to a function of this module that reads through it
+					// before anything else: the test had an outcome, so the pointer is not nil
+					found := false
+					ast.Inspect(ft.E, func(n ast.Node) bool {
+						c, isCall := n.(*ast.CallExpr)
+						if !isCall || found {
+							return !found
+						}
+						fo, _ := f.Callee(c).(*types.Func)
+						if fo == nil {
+							return true
+						}
+						for i, a := range c.Args {
+							if f.SameValue(a, id) && DerefsParamFirst(f.Prog, fo, i) {
+								found = true
+							}
+						}
+						return true
+					})
+					return found
+				})) {
+					out = &[2]bool{false, true}
 				}
 			}
 		}
@@ -2647,6 +2670,8 @@ func (f *Fn) KnownNonNil(e ast.Expr) bool {
 			switch fn.Pkg().Path() + "." + fn.Name() {
 			case "fmt.Errorf", "errors.New", "github.com/pkg/errors.New", "github.com/pkg/errors.Errorf", "github.com/pkg/errors.Wrap", "github.com/pkg/errors.Wrapf":
 				return true
+			case "time.After", "time.NewTimer", "time.NewTicker":
+				return true
 			}
 		}
 	}
@@ -2915,4 +2940,48 @@ func unconvExpr(f *Fn, e ast.Expr) ast.Expr {
 		}
 		e = c.Args[0]
 	}
+}
+
+// DerefsParamFirst: the module function reads through its i-th (pointer) parameter in the straight-line statements its
+// body starts with - a call of it returns only for a non-nil argument.
+func DerefsParamFirst(p *Prog, fo *types.Func, i int) bool {
+	cf := p.FnOf(fo)
+	if cf == nil || cf.Body == nil {
+		return false
+	}
+	sig := fo.Type().(*types.Signature)
+	if i >= sig.Params().Len() || sig.Variadic() {
+		return false
+	}
+	pv := sig.Params().At(i)
+	if _, isPtr := pv.Type().Underlying().(*types.Pointer); !isPtr {
+		return false
+	}
+	for _, st := range cf.Body.List {
+		switch st.(type) {
+		case *ast.AssignStmt, *ast.ExprStmt, *ast.DeclStmt:
+		default:
+			return false
+		}
+		found := false
+		InspectNoLit(st, func(n ast.Node) bool {
+			switch v := n.(type) {
+			case *ast.SelectorExpr:
+				if id, isId := ast.Unparen(v.X).(*ast.Ident); isId && cf.ObjOf(id) == types.Object(pv) {
+					if sel := cf.Info().Selections[v]; sel != nil && sel.Kind() == types.FieldVal {
+						found = true
+					}
+				}
+			case *ast.StarExpr:
+				if id, isId := ast.Unparen(v.X).(*ast.Ident); isId && cf.ObjOf(id) == types.Object(pv) {
+					found = true
+				}
+			}
+			return !found
+		})
+		if found {
+			return true
+		}
+	}
+	return false
 }
